@@ -181,6 +181,41 @@ def _hit_guard(fn, where):
     raise ValueError('%s: unexpected cache-hit test %s' % (where, t))
 
 
+def _source_guards(gh):
+    """The guard flags as the source spells them, None where the code no longer has the recognised shape."""
+    res = dict.fromkeys(('g_status', 'g_suite', 'g_bb', 'keep', 'hit_gh', 'hit_bb'))
+
+    def attempt(name, f):
+        try:
+            res[name] = f()
+        except Exception:
+            res[name] = None
+    wh = _parse(WH)
+    attempt('g_status', lambda: _store_guard(_method(wh, 'handle_github_status_event').body, 'handle_github_status_event'))
+    attempt('g_suite', lambda: _store_guard(_method(wh, 'handle_github_check_suite_event').body,
+                                            'handle_github_check_suite_event'))
+
+    def bb():
+        bbh = _method(wh, 'handle_bitbucket_repo_event')
+        ifs = [n for n in bbh.body if isinstance(n, ast.If) and 'commit_status' in ast.unparse(n.test)]
+        if len(ifs) != 1:
+            raise ValueError('handle_bitbucket_repo_event: commit_status branch not found')
+        return _store_guard(ifs[0].body, 'handle_bitbucket_repo_event')
+    attempt('g_bb', bb)
+
+    def keep():
+        gcs = _method(_class(gh, 'Repository'), 'get_commit_status')
+        loops = [n for n in gcs.body if isinstance(n, ast.For)]
+        if len(loops) != 1 or ast.unparse(loops[0].iter) != 'combined.status.items()':
+            raise ValueError('get_commit_status: refresh loop not found')
+        return _store_guard(loops[0].body, 'get_commit_status')
+    attempt('keep', keep)
+    attempt('hit_gh', lambda: _hit_guard(_method(_class(gh, 'Repository'), 'get_build_status'), 'github get_build_status'))
+    attempt('hit_bb', lambda: _hit_guard(_method(_class(_parse(BB), 'Repository'), 'get_build_status'),
+                                         'bitbucket get_build_status'))
+    return res
+
+
 def read_facts():
     gh = _parse(GH)
     awr = _class(gh, 'AggregatedWorkflowRuns')
@@ -248,23 +283,13 @@ def read_facts():
     size = inspect.signature(LRUCache.__init__).parameters['size'].default
     if cache_mod.BUILD_STATUS_CACHE.default_factory is not LRUCache:
         raise ValueError('BUILD_STATUS_CACHE is not defaultdict(LRUCache)')
-    # guards
-    wh = _parse(WH)
-    g_status = _store_guard(_method(wh, 'handle_github_status_event').body, 'handle_github_status_event')
-    g_suite = _store_guard(_method(wh, 'handle_github_check_suite_event').body, 'handle_github_check_suite_event')
-    bbh = _method(wh, 'handle_bitbucket_repo_event')
-    ifs = [n for n in bbh.body if isinstance(n, ast.If) and 'commit_status' in ast.unparse(n.test)]
-    if len(ifs) != 1:
-        raise ValueError('handle_bitbucket_repo_event: commit_status branch not found')
-    g_bb = _store_guard(ifs[0].body, 'handle_bitbucket_repo_event')
-    ghrepo = _class(gh, 'Repository')
-    gcs = _method(ghrepo, 'get_commit_status')
-    loops = [n for n in gcs.body if isinstance(n, ast.For)]
-    if len(loops) != 1 or ast.unparse(loops[0].iter) != 'combined.status.items()':
-        raise ValueError('get_commit_status: refresh loop not found')
-    keep = _store_guard(loops[0].body, 'get_commit_status')
-    hit_gh = _hit_guard(_method(ghrepo, 'get_build_status'), 'github get_build_status')
-    hit_bb = _hit_guard(_method(_class(_parse(BB), 'Repository'), 'get_build_status'), 'bitbucket get_build_status')
+    # guards: observed on the running code (probe_guards)
+    obs = probe_guards()
+    g_status, g_suite, g_bb = obs['g_status'], obs['g_suite'], obs['g_bb']
+    keep, hit_gh, hit_bb = obs['keep'], obs['hit_gh'], obs['hit_bb']
+    # (the first reader took them from the shape of the source: a guard spelled with `continue` instead of an enclosing
+    # `if` read as "unguarded" - a false alarm on a harmless rewrite; the observation decides, the cache correspondence
+    # below checks the model that is built from it on every operation sequence)
     actions_key = [n.value.value for n in _method(awr, 'key').body if isinstance(n, ast.Return)]
     if len(actions_key) != 1 or not isinstance(actions_key[0], str):
         raise ValueError('AggregatedWorkflowRuns.key is not a literal')
@@ -313,6 +338,64 @@ Definition keep_green_get_commit_status : bool := %s.
        coq_nat(f['size']),
        coq_bool(f['g_status']), coq_bool(f['g_suite']), coq_bool(f['g_bb']),
        coq_bool(f['hit_gh']), coq_bool(f['hit_bb']), coq_bool(f['keep']))
+
+
+def probe_guards():
+    """The six guard flags of the status cache, observed on the running handlers and polls (no source reading):
+    does a webhook handler / the refresh loop of a poll keep a SUCCESSFUL entry; does a poll answer a cached
+    non-green state without asking the host."""
+    def cell(w, key, commit):
+        return dict(w.contents()).get(key) and dict(dict(w.contents())[key]).get(commit)
+    res = {}
+    try:
+        w = world('gh', 'fast')
+        w.reset(2)
+        w.apply(op_es('c0', 'pre-merge', 'SUCCESSFUL'))
+        w.apply(op_es('c0', 'pre-merge', 'FAILED'))
+        res['g_status'] = {'SUCCESSFUL': True, 'FAILED': False}[cell(w, 'pre-merge', 'c0')]
+        w.reset(2)
+        w.apply(op_eu('c0', 'SUCCESSFUL'))
+        w.apply(op_eu('c0', 'FAILED'))
+        res['g_suite'] = {'SUCCESSFUL': True, 'FAILED': False}[cell(w, 'github_actions', 'c0')]
+        w.reset(2)
+        w.apply(op_es('c0', 'pre-merge', 'SUCCESSFUL'))
+        w.apply(op_pg('c0', 'github_actions', [('pre-merge', 'FAILED')], 'FAILED'))
+        res['keep'] = {'SUCCESSFUL': True, 'FAILED': False}[cell(w, 'pre-merge', 'c0')]
+        w.reset(2)
+        w.apply(op_es('c0', 'pre-merge', 'FAILED'))
+        n = w.http_calls
+        a = w.apply(op_pg('c0', 'pre-merge', [('pre-merge', 'SUCCESSFUL')], 'SUCCESSFUL'))
+        asked_red = w.http_calls > n
+        w.reset(2)
+        w.apply(op_es('c0', 'pre-merge', 'SUCCESSFUL'))
+        n = w.http_calls
+        w.apply(op_pg('c0', 'pre-merge', [('pre-merge', 'FAILED')], 'FAILED'))
+        if w.http_calls > n or (not asked_red and a != 'FAILED'):
+            raise ValueError('github get_build_status: a cached SUCCESSFUL is not answered from the cache')
+        res['hit_gh'] = asked_red
+        w = world('bb', 'fast')
+        w.reset(2)
+        w.apply(('EB', 'c0', 'pre-merge', 'SUCCESSFUL'))
+        w.apply(('EB', 'c0', 'pre-merge', 'FAILED'))
+        res['g_bb'] = {'SUCCESSFUL': True, 'FAILED': False}[cell(w, 'pre-merge', 'c0')]
+        w.reset(2)
+        w.apply(('EB', 'c0', 'pre-merge', 'FAILED'))
+        n = w.http_calls
+        a = w.apply(('PB', 'c0', 'pre-merge', 'SUCCESSFUL'))
+        asked_red = w.http_calls > n
+        w.reset(2)
+        w.apply(('EB', 'c0', 'pre-merge', 'SUCCESSFUL'))
+        n = w.http_calls
+        w.apply(('PB', 'c0', 'pre-merge', 'FAILED'))
+        if w.http_calls > n or (not asked_red and a != 'FAILED'):
+            raise ValueError('bitbucket get_build_status: a cached SUCCESSFUL is not answered from the cache')
+        res['hit_bb'] = asked_red
+    finally:
+        cur = _WORLDS.get('current')
+        if cur is not None:
+            cur.unpatch()
+            _WORLDS.pop('current', None)
+    return res
 
 
 def probe_inflight():
